@@ -124,30 +124,17 @@ def run(cx):
                 # paths to the push block that do not pass the store block
                 from vpa import guards as G
                 bad = None
-                dom = b.dominators()
-                stack = [(0, frozenset())]
-                seen = 0
-                while stack:
-                    x, lits = stack.pop()
-                    if x == pb:
-                        def has(pat, pol):
-                            from vpa.pattern import P, DEFAULT
-                            return any(p == pol and DEFAULT.match(P(pat), a) is not None for a, p in lits)
-                        if has(cmp_pat, True) or has(f'(is (self {fld}) None)', True):
-                            bad = sorted(('' if p else 'NOT ') + show(a) for a, p in lits)
-                        continue
-                    if x == sb:
-                        continue
-                    el = G.edge_literals(b, x)
-                    for s in b.succ[x]:
-                        if s in dom.get(x, ()):
-                            continue
-                        stack.append((s, lits | frozenset(el.get(s, ()))))
-                        seen += 1
-                        if seen > 20000:
-                            bad = ['<too many paths>']
-                            stack = []
-                            break
+                from vpa.pattern import P, DEFAULT
+                try:
+                    sets = G.path_literal_sets(b, pb, limit=20000, avoid=(sb,))
+                except OverflowError:
+                    sets = None
+                    bad = ['<too many paths>']
+                for lits in sets or ():
+                    def has(pat, pol, lits=lits):
+                        return any(p == pol and DEFAULT.match(P(pat), a) is not None for a, p in lits)
+                    if has(cmp_pat, True) or has(f'(is (self {fld}) None)', True):
+                        bad = sorted(('' if p else 'NOT ') + show(a) for a, p in lits)
                 cx.ob('GUARD', f'SurfaceDeviationSet::push:{fld}:complete', bad is None,
                       f'whenever {fld} is unset or the new deviation is more extreme, the {fld} update is executed before the append',
                       found='; '.join(bad) if bad else None)
